@@ -49,11 +49,14 @@ type hint struct {
 	Solver  string  `json:"solver"`
 	Seed    int     `json:"seed"`
 	Seconds float64 `json:"seconds"`
+	Name    string  `json:"name,omitempty"`
 }
 
 type Solver struct {
 	hints    map[string]hint
 	newHints map[string]hint
+	curName  map[string]string
+	byName   map[string]hint // same obligation name on the unchanged tree (fallback when the query text changed)
 	cacheDir string
 	workDir  string
 	timeout  int
@@ -69,7 +72,7 @@ type Solver struct {
 func NewSolver(cacheDir, workDir string, timeout, seed int) *Solver {
 	os.MkdirAll(cacheDir, 0o755)
 	os.MkdirAll(workDir, 0o755)
-	return &Solver{cacheDir: cacheDir, workDir: workDir, timeout: timeout, seed: seed, Stats: map[string]int{}, hints: map[string]hint{}, newHints: map[string]hint{}}
+	return &Solver{cacheDir: cacheDir, workDir: workDir, timeout: timeout, seed: seed, Stats: map[string]int{}, hints: map[string]hint{}, newHints: map[string]hint{}, curName: map[string]string{}, byName: map[string]hint{}}
 }
 
 var procSlots = make(chan struct{}, 16)
@@ -111,6 +114,14 @@ func (sv *Solver) LoadHints(file string) {
 		return
 	}
 	json.Unmarshal(data, &sv.hints)
+	sv.byName = map[string]hint{}
+	for _, h := range sv.hints {
+		if h.Name != "" {
+			if old, ok := sv.byName[h.Name]; !ok || h.Seconds > old.Seconds {
+				sv.byName[h.Name] = h
+			}
+		}
+	}
 }
 
 // SaveHints merges the hints recorded in this run into the file.
@@ -130,7 +141,7 @@ func (sv *Solver) SaveHints(file string) {
 
 func (sv *Solver) note(key string, sd solverDef, seed int, secs float64) {
 	sv.mu.Lock()
-	sv.newHints[key[:24]] = hint{sd.name, seed, secs}
+	sv.newHints[key[:24]] = hint{sd.name, seed, secs, sv.curName[key[:24]]}
 	sv.mu.Unlock()
 }
 
@@ -151,8 +162,17 @@ func (sv *Solver) Solve(name, query string) (result, solver string, secs float64
 	os.WriteFile(file, []byte(query), 0o644)
 	defer os.Remove(file)
 	start := time.Now()
-	// stage 0: the way this very query was discharged before, with a generous limit
-	if h, ok := sv.hints[key[:24]]; ok && !sv.smokeOnly {
+	sv.mu.Lock()
+	sv.curName[key[:24]] = name
+	sv.mu.Unlock()
+	// stage 0: the way this very query was discharged before, with a generous limit;
+	// if the query text is new (the function or its contract changed), the way the
+	// obligation of the same name was discharged on the unchanged tree is tried first
+	h0, ok0 := sv.hints[key[:24]]
+	if !ok0 {
+		h0, ok0 = sv.byName[name]
+	}
+	if h, ok := h0, ok0; ok && !sv.smokeOnly {
 		for _, sd := range solvers {
 			if sd.name != h.Solver {
 				continue
@@ -247,13 +267,13 @@ func (sv *Solver) Solve(name, query string) (result, solver string, secs float64
 			sd   solverDef
 			seed int
 		}
-		jobs := []job{{solvers[0], sv.seed + 11}, {solvers[0], sv.seed + 23}, {solvers[0], sv.seed + 37}, {solvers[1], sv.seed + 5}, {solvers[2], sv.seed + 7}}
+		jobs := []job{{solvers[0], sv.seed + 11}, {solvers[0], sv.seed + 23}, {solvers[0], sv.seed + 37}, {solvers[0], sv.seed + 53}, {solvers[0], sv.seed + 71}, {solvers[1], sv.seed + 5}, {solvers[2], sv.seed + 7}, {solvers[2], sv.seed + 29}}
 		ch3 := make(chan res, len(jobs))
 		for _, j := range jobs {
 			j := j
 			go func() {
 				t0 := time.Now()
-				r, out := runOne(ctx3, j.sd, file, sv.timeout*3, j.seed)
+				r, out := runOne(ctx3, j.sd, file, sv.timeout*5, j.seed)
 				ch3 <- res{r, out, fmt.Sprintf("%s(seed %d)", j.sd.name, j.seed), j.sd, j.seed, t0}
 			}()
 		}
